@@ -25,8 +25,8 @@ UNDEF_REVIEWED = {
     "nessai.model:Model._single_new_point": ("$$V = parameters_to_live_point($_a, self.names)", "`logP = -np.inf` immediately precedes `while logP == -np.inf`: first iteration always runs"),
     "nessai.model:Model.verify_model": ("$$V = numpy_array_to_live_points($_a, self.names)", "`logP = -np.inf` immediately precedes `while (logP == -np.inf) or ...`: first iteration always runs; else-branch binds x in the try"),
     "nessai.plot:plot_1d_comparison": ("$$V, $$_u = $$ax.get_legend_handles_labels()", "`axs` comes from plt.subplots with at least one axis"),
-    "nessai.plot:plot_indices": ("for $$V, $$_c in zip($$_a, $$_b):\n    $_s1\n    $_s2\n    $_s3", "np.array_split returns n_breakdown >= 1 batches"),
-    "nessai.flowmodel.base:FlowModel.train": ("for $$V in range(1, max_epochs + 1):\n    $_body", "range(1, max_epochs + 1) is non-empty for the validated max_epochs >= 1"),
+    "nessai.plot:plot_indices": ("for $$V, $$_c in zip($$_a, $$_b):\n    $_rest", "np.array_split returns n_breakdown >= 1 batches"),
+    "nessai.flowmodel.base:FlowModel.train": ("for $$V in range(1, max_epochs + 1):\n    $_rest", "range(1, max_epochs + 1) is non-empty for the validated max_epochs >= 1"),
 }
 
 
